@@ -45,7 +45,29 @@ func c16Builder(m Mode, src string, recs *[]c16Rec) *parser.Builder {
 func c16BuilderSub(m Mode, src string, recs *[]c16Rec, sub bool) *parser.Builder {
 	pb := newPB(m)
 	inSub := false
-	pb.UseStatementInterceptor(func(p *parser.Parser, next func() ast.Statement) ast.Statement {
+	useS, useE := pb.UseStatementInterceptor, pb.UseExpressionInterceptor
+	switch c16Install {
+	case 1: // only the expression interceptor exists on this builder
+		useS = func(parser.Interceptor[ast.Statement]) *parser.Builder { return pb }
+	case 2: // only the statement interceptor exists
+		useE = func(parser.Interceptor[ast.Expression]) *parser.Builder { return pb }
+	case 3: // both, each between two pass-through interceptors of its kind, installed through a plugin
+		useS = func(i parser.Interceptor[ast.Statement]) *parser.Builder {
+			return pb.Install(func(b *parser.Builder) {
+				b.UseStatementInterceptor(func(p *parser.Parser, next func() ast.Statement) ast.Statement { return next() })
+				b.UseStatementInterceptor(i)
+				b.UseStatementInterceptor(func(p *parser.Parser, next func() ast.Statement) ast.Statement { return next() })
+			})
+		}
+		useE = func(i parser.Interceptor[ast.Expression]) *parser.Builder {
+			return pb.Install(func(b *parser.Builder) {
+				b.UseExpressionInterceptor(func(p *parser.Parser, next func() ast.Expression) ast.Expression { return next() })
+				b.UseExpressionInterceptor(i)
+				b.UseExpressionInterceptor(func(p *parser.Parser, next func() ast.Expression) ast.Expression { return next() })
+			})
+		}
+	}
+	useS(func(p *parser.Parser, next func() ast.Statement) ast.Statement {
 		if inSub {
 			return next()
 		}
@@ -76,7 +98,7 @@ func c16BuilderSub(m Mode, src string, recs *[]c16Rec, sub bool) *parser.Builder
 		}
 		return next()
 	})
-	pb.UseExpressionInterceptor(func(p *parser.Parser, next func() ast.Expression) ast.Expression {
+	useE(func(p *parser.Parser, next func() ast.Expression) ast.Expression {
 		if inSub {
 			return next()
 		}
@@ -170,6 +192,13 @@ func c16Ask(kind byte) (ask, fn, ctx bool) {
 	return true, true, true
 }
 
+// c16Install: which interceptors the builder carries at all (the property speaks of "a statement or expression
+// interceptor", not of both being present): 0 = both; 1 = the expression interceptor alone; 2 = the statement
+// interceptor alone; 3 = both, each between two pass-through interceptors of its kind, installed through Install.
+var c16Install int
+
+var c16InstallNames = []string{"", "only an expression interceptor is installed", "only a statement interceptor is installed", "the asking interceptors sit between pass-through interceptors installed through a plugin"}
+
 // c16PushPop: the interceptors use the public PushContext / PopContext themselves, balanced, before asking.
 var c16PushPop bool
 
@@ -189,6 +218,14 @@ func c16NestC(src string, paths map[int]string, m Mode) (kind, detail, class str
 		c16Sched = 0
 		if k2 != "" {
 			return "query-history-" + k2, "when " + c16SchedNames[sched] + ": " + d2, c2, invocations, stacks
+		}
+	}
+	for inst := 1; kind == "" && inst < len(c16InstallNames); inst++ {
+		c16Install = inst
+		k2, d2, c2, _, _ := c16NestSub(src, paths, m, false)
+		c16Install = 0
+		if k2 != "" {
+			return "installation-" + k2, "when " + c16InstallNames[inst] + ": " + d2, c2, invocations, stacks
 		}
 	}
 	if kind == "" {
@@ -645,7 +682,7 @@ var _ = lexer.NewBuilder
 func init() {
 	core.Register(&core.PropSpec{
 		ID: "C16", Level: "model_checking",
-		Rule:     "context stack vs reference nesting model: every chain of <= d nesting constructors (d=3 quick; 4 full alphabet + 5 reduced alphabet thorough) over {block, if/else/while/for block, function declaration, function expression as call argument / array element / object value / let initialiser / return value / IIFE / inside if-, while- and for-headers / operand / index} around 3 leaf bodies, with a sibling statement before and after the nested construct at every level, plus the statement families (brace-less bodies); each parsed (space layout and LF-in-every-gap layout) with one statement and one expression interceptor that record IsInFunction(), CurrentContext() and the current token; oracle per invocation: the token's nesting path recorded by the harness unparser (function body braces = function body, not an extra block) gives IsInFunction <=> path contains a function and CurrentContext = innermost element. Final-state clause: ALL token sequences <= n (4 quick, 5 thorough) x modes, all byte strings <= 4, every truncation of every nested program at a token boundary and every single-token deletion: after ParseProgram CurrentContext()=global and IsInFunction()=false, with and without interceptors. states = distinct context stacks observed at an invocation; transitions = interceptor invocations checked Added: every ordered pair of nesting constructors x leaf bodies side by side (top level and inside a function); chains of one constructor (and alternating pairs) nested 5, 9, 17, 33, 65 (129, 257 thorough) deep; one constructor around (and innermost inside) 8, 16, 32, 64 (128, 256) levels of another constructor, for every ordered pair; sub-parse clause: every program again with a statement interceptor that parses a nested snippet with a SECOND parser of the same builder before answering.",
+		Rule:     "context stack vs reference nesting model: every chain of <= d nesting constructors (d=3 quick; 4 full alphabet + 5 reduced alphabet thorough) over {block, if/else/while/for block, function declaration, function expression as call argument / array element / object value / let initialiser / return value / IIFE / inside if-, while- and for-headers / operand / index} around 3 leaf bodies, with a sibling statement before and after the nested construct at every level, plus the statement families (brace-less bodies); each parsed (space layout and LF-in-every-gap layout) with one statement and one expression interceptor that record IsInFunction(), CurrentContext() and the current token; oracle per invocation: the token's nesting path recorded by the harness unparser (function body braces = function body, not an extra block) gives IsInFunction <=> path contains a function and CurrentContext = innermost element. Final-state clause: ALL token sequences <= n (4 quick, 5 thorough) x modes, all byte strings <= 4, every truncation of every nested program at a token boundary and every single-token deletion: after ParseProgram CurrentContext()=global and IsInFunction()=false, with and without interceptors. states = distinct context stacks observed at an invocation; transitions = interceptor invocations checked Added: every ordered pair of nesting constructors x leaf bodies side by side (top level and inside a function); chains of one constructor (and alternating pairs) nested 5, 9, 17, 33, 65 (129, 257 thorough) deep; one constructor around (and innermost inside) 8, 16, 32, 64 (128, 256) levels of another constructor, for every ordered pair; sub-parse clause: every program again with a statement interceptor that parses a nested snippet with a SECOND parser of the same builder before answering. Installation sets (round 11): every program again on builders that carry only the expression interceptor, only the statement interceptor, and both between pass-through interceptors installed through Install.",
 		Assume:   []string{"nesting paths come from the harness unparser; its statement structure is cross-checked against goja by C02"},
 		QuickSec: 300, ThorSec: 3600, Run: c16Run, Replay: c16Replay,
 		Evals: "programs_parsed", Nontriv: "programs_with_invocations", States: "states", Trans: "interceptor_invocations",
